@@ -43,7 +43,7 @@ func checkC06(c *Ctx, r *Report) {
 	debugNil(nf, c)
 	debugKinds(nf.kf)
 	runEXOR(c, r, nf, roots, 20)
-	runENIL(c, r, nf, nil)
+	runENIL(c, r, nf, nil, 25)
 	readers := nf.entryMethods("", "Reader", "Decode")
 	runEKIND(c, r, nf, readers, 5)
 	reach := nf.reachableFrom(roots)
@@ -109,8 +109,8 @@ func explainXOR(nf *nilFlow, f *ssa.Function, depth int) string {
 	return why
 }
 
-func runENIL(c *Ctx, r *Report, nf *nilFlow, within map[*ssa.Function]bool) {
-	r.Rule("E-NIL", "a value obtained from a function that may return nil without an error (discovered from the returns: nil constant or pass-through, error absent or not provably non-nil; plus ianaindex.Encoding) is not dereferenced, invoked or passed to a dereferencing callee unless a non-nil test of it dominates the use", 10)
+func runENIL(c *Ctx, r *Report, nf *nilFlow, within map[*ssa.Function]bool, min int) {
+	r.Rule("E-NIL", "a value obtained from a function that may return nil without an error (discovered from the returns: nil constant or pass-through, error absent or not provably non-nil; plus ianaindex.Encoding) is not dereferenced, invoked or passed to a dereferencing callee unless a non-nil test of it dominates the use", min)
 	var fs []*ssa.Function
 	for _, f := range nf.funcs {
 		if within == nil || within[f] {
